@@ -23,6 +23,9 @@ type Opts struct {
 	Clean     bool // avoid the shapes of known findings (F6: static call before dynamic call; F7: atom in a non-recovering deferred function while panicking)
 	Unwind    bool // bias towards defer/panic/recover/Goexit forms (C08)
 	Goroutine bool // allow the go-statement form
+	Native    bool // the program is also compared with a native build: no dependence on map iteration order, no range over an array that the body mutates
+	Goexit    bool // scenario functions run in their own goroutine, so runtime.Goexit may be used
+	Scenarios bool // emit funcs.go + main_s.go (scenarios one after the other) + main_m.go (all concurrently, build tag multi)
 	Weights   map[string]int
 }
 
@@ -339,6 +342,11 @@ func (g *gen) stmt() {
 		{"append", 3, true, g.sAppend},
 		{"pointer", 3, true, g.sPointer},
 		{"early", 1, g.depth > 1 && g.inDefer == 0 && g.inLoop > 0, g.sEarlyReturn},
+		{"goexit", 2, g.o.Goexit && g.inDefer == 0, g.sGoexit},
+		{"nestedpanic", 3, g.o.Unwind && g.inLoop == 0 && g.inDefer == 0, g.sNestedPanic},
+		{"repanic", 3, g.o.Unwind && g.panicky && g.inLoop == 0 && g.inDefer == 0, g.sRepanic},
+		{"indirectrecover", 2, g.o.Unwind && g.inLoop == 0 && g.inDefer == 0, g.sIndirectRecover},
+		{"deferloop", 2, g.o.Unwind && deep && g.inLoop == 0 && g.inDefer == 0, g.sDeferLoop},
 	}
 	total := 0
 	for i := range forms {
@@ -359,6 +367,8 @@ func (g *gen) stmt() {
 			g.f("stmt:" + f.name)
 			from := g.lines
 			f.fn()
+			// keep the accumulators small: native int is 64 bits wide, GopherJS's is 32
+			g.line("a, b, c = rd(a), rd(b), rd(c)")
 			g.units = append(g.units, Unit{From: from, To: g.lines, Form: f.name, Depth: g.depth + g.inDefer})
 			return
 		}
@@ -543,10 +553,26 @@ func (g *gen) sRange() {
 		g.line("a += %s*3 + %s", k, v)
 	case 1:
 		g.f("range:array-copy")
-		g.line("for %s, %s := range arr {", k, v)
+		if g.o.Native {
+			// GopherJS ranges over the array itself when the body mutates it (a known translation deviation
+			// outside the claimed properties): range over an explicit copy in native-compared programs
+			g.line("arc%d := arr", g.tmp)
+			g.line("for %s, %s := range arc%d {", k, v, g.tmp)
+		} else {
+			g.line("for %s, %s := range arr {", k, v)
+		}
 		g.ind++
 		g.line("b += %s + %s", k, v)
 	case 2:
+		if g.o.Native {
+			// iteration order of a map is unspecified: commutative accumulation only, no nested statements
+			g.f("range:map-commutative")
+			g.line("for %s, %s := range m {", k, v)
+			g.line("\tc += len(%s) + %s", k, v)
+			g.line("}")
+			g.inLoop--
+			return
+		}
 		g.f("range:map-with-mutation")
 		g.line("for %s, %s := range m {", k, v)
 		g.ind++
@@ -657,7 +683,7 @@ func (g *gen) deferBody(recovered bool) {
 
 func (g *gen) sPanic() {
 	g.stmtStart()
-	switch g.r.Intn(4) {
+	switch g.r.Intn(10) {
 	case 0:
 		g.f("panic:explicit-int")
 		g.line("if %s {", g.boolExpr(1))
@@ -674,12 +700,131 @@ func (g *gen) sPanic() {
 		g.line("\tvar nm map[string]int")
 		g.line("\tnm[\"x\"] = 1")
 		g.line("}")
-	default:
+	case 3:
 		g.f("panic:divide")
 		g.line("if %s {", g.boolExpr(1))
 		g.line("\tb = a / zero()")
 		g.line("}")
+	case 4:
+		g.f("panic:string-value")
+		g.line("if %s {", g.boolExpr(1))
+		g.line("\tpanic(\"boom\" + ks[ix(a, 3)])")
+		g.line("}")
+	case 5:
+		g.f("panic:error-value")
+		g.line("if %s {", g.boolExpr(1))
+		g.line("\tpanic(myErr{%s})", g.mod(g.intExpr(0)))
+		g.line("}")
+	case 6:
+		g.f("panic:nil-pointer")
+		g.line("if %s {", g.boolExpr(1))
+		g.line("\tvar np *S")
+		g.line("\ta = np.a")
+		g.line("}")
+	case 7:
+		g.f("panic:failed-assertion")
+		g.line("if %s {", g.boolExpr(1))
+		g.line("\tvar ai interface{} = \"str\"")
+		g.line("\ta = ai.(int)")
+		g.line("}")
+	case 8:
+		g.f("panic:closed-channel")
+		g.line("if %s {", g.boolExpr(1))
+		g.line("\tcc := make(chan int, 1)")
+		g.line("\tclose(cc)")
+		g.line("\tcc <- 1")
+		g.line("}")
+	default:
+		g.f("panic:slice-bounds")
+		g.line("if %s {", g.boolExpr(1))
+		g.line("\tsl = sl[:cap(sl)+1+ix(a, 2)]")
+		g.line("}")
 	}
+}
+
+// restricted runs fn with atoms disabled when, in clean mode, the code may execute inside a deferred call
+// while a panic is propagating and before any recover (known shape F7).
+func (g *gen) restricted(fn func()) {
+	if g.o.Clean && g.panicky {
+		g.noAtoms++
+		defer func() { g.noAtoms-- }()
+	} else if g.panicky {
+		g.f("defer:atom-while-maybe-panicking")
+	}
+	fn()
+}
+
+func (g *gen) sGoexit() {
+	g.stmtStart()
+	if g.r.Bool() {
+		g.f("goexit:direct")
+		g.line("if %s {", g.boolExpr(1))
+		g.line("\truntime.Goexit()")
+		g.line("}")
+	} else {
+		g.f("goexit:below-deferred-frame")
+		g.line("gx(%s, %d)", g.boolExpr(1), g.r.Intn(50))
+	}
+}
+
+func (g *gen) sNestedPanic() {
+	// a deferred function that panics itself: replaces a panic in flight (or starts one during a normal
+	// return); its own nested deferred call recovers whichever panic is current
+	g.f("panic:nested-replaced")
+	g.line("defer func() {")
+	g.line("\tdefer func() {")
+	g.line("\t\tif x := recover(); x != nil {")
+	g.line("\t\t\tr = rd(r + 300 + pv(x))")
+	g.line("\t\t}")
+	g.line("\t}()")
+	g.inDefer++
+	g.restricted(func() {
+		g.stmtStart()
+		g.line("\tif %s {", g.boolExpr(1))
+		g.line("\t\tpanic(%s)", g.mod(g.intExpr(1)))
+		g.line("\t}")
+	})
+	g.inDefer--
+	g.line("}()")
+}
+
+func (g *gen) sRepanic() {
+	g.f("panic:re-panic-after-recover")
+	g.line("defer func() {")
+	g.line("\tif x := recover(); x != nil {")
+	g.inDefer++
+	g.stmtStart()
+	g.line("\t\ty.Tr(pv(x) + %s)", g.mod(g.intExpr(0)))
+	g.inDefer--
+	g.line("\t\tpanic(pv(x) + 1)")
+	g.line("\t}")
+	g.line("}()")
+}
+
+func (g *gen) sIndirectRecover() {
+	if g.r.Bool() {
+		g.f("recover:not-called-directly")
+		g.line("defer func() { y.Tr(700 + rec2()) }()")
+	} else {
+		g.f("recover:deferred-function-itself")
+		g.line("defer rec3(&r)")
+	}
+}
+
+func (g *gen) sDeferLoop() {
+	g.tmp++
+	iv := fmt.Sprintf("i%d", g.tmp)
+	g.f("defer:in-loop-lifo")
+	g.line("for %s := 0; %s < %d; %s++ {", iv, iv, 2+g.r.Intn(2), iv)
+	g.inDefer++
+	g.inLoop++
+	var arg string
+	g.stmtStart()
+	arg = g.mod(g.intExpr(0))
+	g.line("\tdefer func(q int) { r = rd(r*3 + q + %s) }(%s + %s)", "c", iv, arg)
+	g.inLoop--
+	g.inDefer--
+	g.line("}")
 }
 
 func (g *gen) sChan() {
@@ -926,9 +1071,12 @@ func (g *gen) function(idx int) {
 	g.line("var nilch chan int")
 	g.line("_, _, _, _, _, _, _, _, _, _ = a, b, c, s, arr, sl, m, st, ps, pi")
 	g.line("_, _, _, _, _, _, _, _, _, _, _ = t, tv, e, i, fv, mv, bx, bv, ch, ch2, nilch")
+	g.line("_ = runtime.NumGoroutine")
 	if g.panicky {
 		g.f("func:panicky")
 		// the function recovers its own panics so that none crosses a function boundary
+		from := g.lines
+		g.units = append(g.units, Unit{From: from, To: from + 6, Form: "recoverprologue", Depth: 0})
 		g.line("defer func() {")
 		g.line("\tif x := recover(); x != nil {")
 		g.line("\t\tr = 500 + pv(x) + a%%10")
@@ -954,6 +1102,7 @@ func (g *gen) function(idx int) {
 const prelude = `package main
 
 import (
+	"runtime"
 	_ "unsafe"
 
 	"seqprog/y"
@@ -993,12 +1142,47 @@ func sel3(c bool, a, b int) int {
 
 func zero() int { return 0 }
 
-// pv maps a recovered panic value to an int: explicit int panics by value, run-time errors by class.
+func rd(v int) int { return v % 99991 }
+
+type myErr struct{ code int }
+
+func (e myErr) Error() string { return "myErr" }
+
+// gx calls runtime.Goexit below a frame that has deferred calls.
+func gx(c bool, k int) {
+	defer y.Tr(800 + k)
+	if c {
+		runtime.Goexit()
+	}
+	y.Tr(850 + k)
+}
+
+// rec2 calls recover, but is not itself a deferred function: recover must return nil.
+func rec2() int {
+	if recover() != nil {
+		return 1
+	}
+	return 0
+}
+
+// rec3 is deferred directly: its recover stops a panic.
+func rec3(r *int) {
+	if x := recover(); x != nil {
+		*r = rd(*r + 400 + pv(x))
+	}
+}
+
+// pv maps a recovered panic value to an int: explicit panics by value, run-time errors by class (and whether
+// they implement runtime.Error).
 func pv(x interface{}) int {
 	switch v := x.(type) {
 	case int:
 		return v % 97
-	case error:
+	case string:
+		return 30 + len(v)
+	case myErr:
+		return 40 + v.code%50
+	case runtime.Error:
 		m := v.Error()
 		switch {
 		case has(m, "index out of range"):
@@ -1007,8 +1191,18 @@ func pv(x interface{}) int {
 			return 12
 		case has(m, "divide by zero"):
 			return 13
+		case has(m, "nil pointer dereference"):
+			return 14
+		case has(m, "interface conversion"):
+			return 15
+		case has(m, "send on closed channel"):
+			return 16
+		case has(m, "slice bounds out of range"):
+			return 18
 		}
 		return 19
+	case error:
+		return 21
 	}
 	return 17
 }
@@ -1031,6 +1225,9 @@ func Generate(r *rng.R, o Opts) *Program {
 	g.lines = strings.Count(prelude, "\n")
 	for i := 0; i < o.Funcs; i++ {
 		g.function(i)
+	}
+	if o.Scenarios {
+		return g.finishScenarios()
 	}
 	g.line("func main() {")
 	g.ind++
@@ -1064,4 +1261,63 @@ func (p *Program) FeatureList() []string {
 	}
 	sort.Strings(l)
 	return l
+}
+
+// finishScenarios emits the scenario runner and the two mains (C08): every generated function is a scenario
+// run in its own goroutine, sequentially (main_s.go) or all at once (main_m.go, build tag multi).
+func (g *gen) finishScenarios() *Program {
+	o := g.o
+	g.line("func runScenario(k int, done chan int) {")
+	g.line("\ty.Cur = k")
+	g.line("\tdefer func() {")
+	g.line("\t\ty.Cur = k")
+	g.line("\t\tif x := recover(); x != nil {")
+	g.line("\t\t\tprintln(k, \"ESCAPED\", pv(x))")
+	g.line("\t\t}")
+	g.line("\t\tdone <- k")
+	g.line("\t}()")
+	g.line("\tswitch k {")
+	for i := 0; i < o.Funcs; i++ {
+		g.line("\tcase %d:", i)
+		g.line("\t\ty.Tr(f%d(%d))", i, g.r.Intn(7))
+	}
+	g.line("\t}")
+	g.line("\tprintln(k, \"FIN\")")
+	g.line("}")
+	sort.SliceStable(g.units, func(a, b int) bool {
+		if g.units[a].Depth != g.units[b].Depth {
+			return g.units[a].Depth < g.units[b].Depth
+		}
+		return g.units[a].To-g.units[a].From > g.units[b].To-g.units[b].From
+	})
+	mainS := fmt.Sprintf(`//go:build !multi
+
+package main
+
+func main() {
+	done := make(chan int, %d)
+	for k := 0; k < %d; k++ {
+		go runScenario(k, done)
+		<-done
+	}
+	println("END")
+}
+`, o.Funcs, o.Funcs)
+	mainM := fmt.Sprintf(`//go:build multi
+
+package main
+
+func main() {
+	done := make(chan int, %d)
+	for k := 0; k < %d; k++ {
+		go runScenario(k, done)
+	}
+	for k := 0; k < %d; k++ {
+		<-done
+	}
+	println("END")
+}
+`, o.Funcs, o.Funcs, o.Funcs)
+	return &Program{Files: map[string]string{"main.go": g.b.String(), "main_s.go": mainS, "main_m.go": mainM, "go.mod": "module seqprog\n\ngo 1.20\n"},
+		Atoms: g.atom, Features: g.feat, Clean: o.Clean, Units: g.units}
 }
